@@ -24,10 +24,10 @@ OBL = []
 
 
 def ob(prop, name, harness, what, fns, pkg="cozy-chess", tier="quick", timeout=900, bounded=None,
-       backend="kani", features=(), flags=(), cut=False, group=None, solver=None, expect_covers=0):
+       backend="kani", features=(), flags=(), cut=False, group=None, solver=None, expect_covers=0, should_panic=False):
     OBL.append(dict(prop=prop, name=name, harness=harness, what=what, fns=list(fns), pkg=pkg, tier=tier,
                     timeout=timeout, bounded=bounded, backend=backend, features=tuple(features),
-                    flags=tuple(flags), cut=cut, group=group, solver=solver, expect_covers=expect_covers))
+                    flags=tuple(flags), cut=cut, group=group, solver=solver, expect_covers=expect_covers, should_panic=should_panic))
 
 
 T = "cozy-chess-types"
@@ -52,6 +52,31 @@ ob("C18", "O-C18.flips", BB + "c18_flips", "flip_ranks / flip_files move each me
 ob("C18", "O-C18.collect.b4", BB + "c18_collect_bounded4", "FromIterator<Square>: collecting up to 4 squares builds their set",
    ["BitBoard::from_iter"], pkg=T, timeout=300, bounded="sequences of at most 4 squares (the fold of core::iter is unwound)")
 
+# ------------------------------------------------------------------------------------------- C19
+TR = "verif_types::"
+ob("C19", "O-C19.coord.square", TR + "c19_square_coords", "Square/File/Rank construction, decomposition, flips, colour-relative views, coordinate bitboards == plain coordinate arithmetic",
+   ["Square::new", "Square::file", "Square::rank", "Square::index", "Square::try_index", "Square::index_const", "Square::flip_file", "Square::flip_rank", "Square::relative_to", "File::flip", "Rank::flip", "Rank::relative_to", "Square::bitboard", "File::bitboard", "Rank::bitboard", "File::adjacent"], pkg=T, timeout=300)
+ob("C19", "O-C19.coord.index-total", TR + "c19_try_index_total", "try_index is total over usize: Some(i-th variant) exactly inside the range",
+   ["Square::try_index", "File::try_index", "Rank::try_index", "Color::try_index", "Piece::try_index", "Color::not"], pkg=T, timeout=300)
+ob("C19", "O-C19.coord.try-offset", TR + "c19_try_offset", "try_offset == coordinate arithmetic for all 64 x 256 x 256 arguments, None exactly off the board, no arithmetic overflow (so identical with overflow checks on and off); offset agrees in range",
+   ["Square::try_offset", "Square::offset"], pkg=T, timeout=600)
+ob("C19", "O-C19.coord.offset-panics", TR + "c19_offset_panics_off_board", "offset panics when the target is off the board",
+   ["Square::offset"], pkg=T, timeout=300, should_panic=True)
+ob("C19", "O-C19.char", TR + "c19_char_conversions", "char::from / TryFrom<char> are exact inverses for File, Rank, Piece, Color on the whole char domain",
+   ["File::try_from", "Rank::try_from", "Piece::try_from", "Color::try_from", "char::from<File|Rank|Piece|Color>"], pkg=T, timeout=300)
+ob("C19", "O-C19.parse.enums.b4", TR + "c19_parse_enums_b4", "FromStr for File/Rank/Piece/Color accepts exactly the one-letter texts",
+   ["File::from_str", "Rank::from_str", "Piece::from_str", "Color::from_str"], pkg=T, timeout=900, bounded="all UTF-8 strings of at most 4 bytes")
+ob("C19", "O-C19.parse.square.b6", TR + "c19_parse_square_b6", "Square::from_str accepts exactly <file letter><rank digit> and decodes it",
+   ["Square::from_str"], pkg=T, timeout=900, bounded="all UTF-8 strings of at most 6 bytes")
+ob("C19", "O-C19.parse.move.b8", TR + "c19_parse_move_b8", "Move::from_str accepts exactly <sq><sq>[nbrq] and decodes it; never panics",
+   ["Move::from_str"], pkg=T, timeout=1800, bounded="all UTF-8 strings of at most 8 bytes")
+ob("C19", "O-C19.display.square", TR + "c19_display_square", "Display for Square through the real core::fmt: file letter + rank digit",
+   ["Square::fmt", "File::fmt", "Rank::fmt"], pkg=T, timeout=900)
+
+ob("C19", "O-C19.display.enums", TR + "c19_display_enums", "Display for File/Rank/Piece/Color through the real core::fmt: the one-letter text",
+   ["File::fmt", "Rank::fmt", "Piece::fmt", "Color::fmt"], pkg=T, timeout=900)
+ob("C19", "O-C19.display.move-roundtrip", TR + "c19_display_move_roundtrip", "Display for Move through the real core::fmt gives <from><to>[letter]; parse(format(m)) == m for every legal-shape move, error for king/pawn promotions",
+   ["Move::fmt", "Move::from_str", "Square::fmt", "Square::from_str"], pkg=T, timeout=1800)
 
 def for_property(prop, tier):
     out = []
